@@ -19,8 +19,11 @@ Section Goals.
       exists blob, encrypt_seed seal wrap dek nonce p = Ok blob
                    /\ decrypt_seed open unwrap blob = Ok p.
 
-  (* whatever the blob and whatever the provider does: an error or a plaintext, never a panic *)
+  (* whatever the blob and whatever the provider answers (error, wrong key, wrong-length key):
+     an error or a plaintext, never a panic. (A provider that itself panics is outside the claim:
+     without the hypothesis the statement is refuted, see env_no_panic_false.) *)
   Definition goal_no_panic : Prop :=
+    (forall w, is_panic (unwrap w) = false) ->
     forall blob, is_panic (decrypt_seed open unwrap blob) = false.
 
   (* nothing bypasses the checks: an accepted blob is, byte for byte, two validated length
